@@ -3,6 +3,7 @@
   Property theorems only (helper lemmas are local and proved here; nothing is assumed).
 -/
 import RdestModel.Wire.Frame
+import RdestModel.Wire.Conn
 import RdestModel.Lemmas.Bitfield
 set_option linter.unusedSimpArgs false
 namespace Rdest.Props.C07
@@ -148,5 +149,37 @@ example : parseImpl (encode (.request 1 2 3) ++ [9, 9]) = .frame (.request 1 2 3
 example : fromVec [true, false, true, false, false, false, false, false, true] = [0xA0, 0x80] := by
   rw [fromVec_step _ (by simp), fromVec_step _ (by simp)]; simp [fromVec_nil]; decide
 example : toVec [0xA0, 0x80] 9 = some [true, false, true, false, false, false, false, false, true] := by decide
+
+/-! ### The emitted stream: what a receiver decodes is the sequence of messages sent -/
+
+theorem drain_nil : drain [] = ([], some []) := by
+  rw [drain]; split <;> simp_all [parseImpl]
+
+/-- **T6.** Whatever sequence of messages is emitted one after the other (`send_msg` for each), the receive loop decodes
+    exactly that sequence from the concatenated bytes and keeps nothing back — with C06.T2 for every segmentation of the
+    stream. (`WF`: fields fit in 32 bits; `Fits`: the frame is within the receive limit.) -/
+theorem T6_emitted_stream_decodes_to_the_messages (ms : List Msg) (h : ∀ m ∈ ms, m.WF ∧ Fits m) :
+    drain (ms.flatMap encode) = (ms, some []) := by
+  induction ms with
+  | nil => exact drain_nil
+  | cons m rest ih =>
+    have hm := h m (by simp)
+    have hp := T2_roundtrip m (rest.flatMap encode) hm.1 hm.2
+    have ih' := ih (fun x hx => h x (by simp [hx]))
+    simp only [List.flatMap_cons]
+    rw [drain]
+    split
+    · rename_i m' n heq
+      rw [hp] at heq
+      simp only [ParseOut.frame.injEq] at heq
+      obtain ⟨rfl, rfl⟩ := heq
+      simp only [List.drop_left, ih']
+    · rename_i n heq; rw [hp] at heq; cases heq
+    · rename_i heq; rw [hp] at heq; cases heq
+    · rename_i heq; rw [hp] at heq; cases heq
+
+theorem T6_events (ms : List Msg) (h : ∀ m ∈ ms, m.WF ∧ Fits m) :
+    decodeAll (ms.flatMap encode) = ms.map Event.frame ++ [Event.closed] := by
+  simp [decodeAll, T6_emitted_stream_decodes_to_the_messages ms h, eofEvent]
 
 end Rdest.Props.C07
